@@ -250,6 +250,23 @@ func (chain *Chain) loadState() error {
 	if err != nil || cache == nil {
 		return err
 	}
+	if cache.Number == 0 {
+		// The process stopped inside finalizeNodeAcceptSnapshot, after round
+		// zero was started and before round one was. Without the accept
+		// snapshot the chain is still pledging and the snapshot will be
+		// finalized again; with it the last step is repeated here.
+		if len(cache.Snapshots) == 0 {
+			return nil
+		}
+		_, _, err := chain.node.startFirstRoundAfterNodeAccept(cache.Snapshots[0])
+		if err != nil {
+			return err
+		}
+		cache, err = loadHeadRoundForNode(chain.persistStore, chain.ChainId)
+		if err != nil || cache == nil {
+			return err
+		}
+	}
 	state.CacheRound = cache
 
 	final, err := loadFinalRoundForNode(chain.persistStore, chain.ChainId, cache.Number-1)
